@@ -383,6 +383,20 @@ static std::string val(FnCtx &X, const Value *V) {
 
 
 static std::set<std::string> frozenRoots; static bool monitorOn = false;
+// mutable namespace-scope state that a const operation must neither write nor read (the model's output sinks are exempt:
+// "file writers to distinct files" may write their file)
+static bool monitoredGlobal(const Value *V) {
+    auto *G = dyn_cast<GlobalVariable>(V->stripInBoundsOffsets());
+    if (!G || G->isConstant()) return false;
+    StringRef n = G->getName();
+    if (n.contains("verif_the_file") || n.contains("4cout") || n.contains("4cerr") || n.startswith("__") || n.contains("harness_scratch") || n.contains("verif_fslot")) return false; // (verif_fslot: where the std::function MODEL keeps a stateful target; the real one keeps it inside the object)
+    return true;
+}
+static std::string monHits(const std::string &p) {
+    std::string e = "0";
+    for (size_t k = 0; k < frozenRoots.size(); ++k) e += " || __CPROVER_same_object((void*)(" + p + "), __frozen_obj" + std::to_string(k) + ")";
+    return "(" + e + ")";
+}
 static std::map<const BasicBlock *, std::pair<int, const Loop *>> loopHeader; // header -> (id, loop)
 static std::vector<std::pair<std::string, int>> boundSpec; static int boundDefault = 8;
 struct LoopMeta { int id; std::string func, linkage; unsigned line; int bound; };
@@ -591,8 +605,8 @@ static void emitFunction(Function &F, raw_ostream &O) {
             } else if (auto *SI = dyn_cast<StoreInst>(&I)) {
                 if (monitorOn) {
                     Path MP = resolve(X, SI->getPointerOperand());
-                    if (MP.ok) { if (frozenRoots.count(MP.root) || isa<GlobalVariable>(SI->getPointerOperand()->stripInBoundsOffsets())) O << "    __CPROVER_assert(!__frozen, \"const operation writes shared state: " << skeleton(MP) << "\");\n"; }
-                    else O << "    __CPROVER_assert(!__frozen || !__mon_hits(" << val(X, SI->getPointerOperand()) << "), \"const operation writes shared state through a pointer\");\n";
+                    if (MP.ok) { if (frozenRoots.count(MP.root) || monitoredGlobal(SI->getPointerOperand())) O << "    __CPROVER_assert(!__frozen, \"MON: const operation writes shared state: " << skeleton(MP) << "\");\n"; }
+                    else O << "    __CPROVER_assert(!__frozen || !" << monHits(val(X, SI->getPointerOperand())) << ", \"MON: const operation writes shared state through a pointer\");\n";
                 }
                 O << "    " << lval(X, SI->getPointerOperand()) << " = " << val(X, SI->getValueOperand()) << ";\n";
             } else if (isa<GetElementPtrInst>(I) && resolve(X, &I).ok) {
@@ -758,7 +772,7 @@ static void emitFunction(Function &F, raw_ostream &O) {
                             // widen both to the enclosing object of exactly LEN bytes
                             auto fit = [&](Path &P) { for (int g = 0; g < 16 && DL->getTypeAllocSize(P.ty) > LEN->getZExtValue(); ++g) { if (auto *ST = dyn_cast<StructType>(P.ty)) { P.steps.push_back({true, 0, ""}); P.ty = ST->getElementType(0);} else if (auto *AT = dyn_cast<ArrayType>(P.ty)) { P.steps.push_back({false, 0, "0"}); P.ty = AT->getElementType(); } else break; } };
                             fit(PD); fit(PS);
-                            if (PD.ty == PS.ty && DL->getTypeAllocSize(PD.ty) == LEN->getZExtValue()) { if (monitorOn && frozenRoots.count(PD.root)) O << "    __CPROVER_assert(!__frozen, \"const operation writes shared state (memcpy): " << skeleton(PD) << "\");\n"; O << "    " << pathStr(PD) << " = " << pathStr(PS) << "; /* typed memcpy */\n"; if (II) gotoBlock(X, &B, II->getNormalDest(), O); continue; }
+                            if (PD.ty == PS.ty && DL->getTypeAllocSize(PD.ty) == LEN->getZExtValue()) { if (monitorOn && (frozenRoots.count(PD.root) || monitoredGlobal(CB->getArgOperand(0)))) O << "    __CPROVER_assert(!__frozen, \"MON: const operation writes shared state (memcpy): " << skeleton(PD) << "\");\n"; O << "    " << pathStr(PD) << " = " << pathStr(PS) << "; /* typed memcpy */\n"; if (II) gotoBlock(X, &B, II->getNormalDest(), O); continue; }
                         }
                     }
                     {   // a copy that spans several consecutive fields of two objects of the same struct type: field-wise assignment
@@ -781,6 +795,7 @@ static void emitFunction(Function &F, raw_ostream &O) {
                             }
                         }
                     }
+                    if (monitorOn) O << "    __CPROVER_assert(!__frozen || !" << monHits(val(X, CB->getArgOperand(0))) << ", \"MON: const operation writes shared state (raw memcpy)\");\n";
                     O << "    " << (nm.rfind("llvm.memcpy", 0) == 0 ? "memcpy" : "memmove") << "(" << val(X, CB->getArgOperand(0)) << ", " << val(X, CB->getArgOperand(1)) << ", " << val(X, CB->getArgOperand(2)) << ");\n";
                 } else if (nm.rfind("llvm.memset", 0) == 0) {
                     {
@@ -790,12 +805,14 @@ static void emitFunction(Function &F, raw_ostream &O) {
                             auto fit = [&](Path &P) { for (int g = 0; g < 16 && DL->getTypeAllocSize(P.ty) > LEN->getZExtValue(); ++g) { if (auto *ST = dyn_cast<StructType>(P.ty)) { P.steps.push_back({true, 0, ""}); P.ty = ST->getElementType(0);} else if (auto *AT = dyn_cast<ArrayType>(P.ty)) { P.steps.push_back({false, 0, "0"}); P.ty = AT->getElementType(); } else break; } };
                             fit(PD);
                             if (DL->getTypeAllocSize(PD.ty) == LEN->getZExtValue()) {
+                                if (monitorOn && (frozenRoots.count(PD.root) || monitoredGlobal(CB->getArgOperand(0)))) O << "    __CPROVER_assert(!__frozen, \"MON: const operation writes shared state (memset): " << skeleton(PD) << "\");\n";
                                 if (PD.ty->isSingleValueType()) O << "    " << pathStr(PD) << " = 0; /* typed memset */\n";
                                 else O << "    { static const " << cty(PD.ty) << " z_; " << pathStr(PD) << " = z_; } /* typed memset */\n";
                                 continue;
                             }
                         }
                     }
+                    if (monitorOn) O << "    __CPROVER_assert(!__frozen || !" << monHits(val(X, CB->getArgOperand(0))) << ", \"MON: const operation writes shared state (raw memset)\");\n";
                     O << "    memset(" << val(X, CB->getArgOperand(0)) << ", " << val(X, CB->getArgOperand(1)) << ", " << val(X, CB->getArgOperand(2)) << ");\n";
                 } else if (nm.rfind("llvm.umax", 0) == 0 || nm.rfind("llvm.umin", 0) == 0) {
                     std::string a = val(X, CB->getArgOperand(0)), b = val(X, CB->getArgOperand(1));
@@ -845,8 +862,14 @@ static void emitFunction(Function &F, raw_ostream &O) {
                     if (auto *GV = dyn_cast<GlobalVariable>(CB->getArgOperand(0)->stripPointerCasts()))
                         if (GV->hasInitializer()) if (auto *CD = dyn_cast<ConstantDataArray>(GV->getInitializer())) msg = CD->getAsCString().str();
                     O << "    __CPROVER_assert(0, \"REACH: " << msg << "\");\n";
+                } else if (nm.rfind("__cxa_guard_", 0) == 0) {
+                    O << "    __CPROVER_assert(!__frozen, \"MON: const operation initialises a function-local static (" << nm << ")\");\n";
+                    if (!r.empty()) O << "    " << r << " = 0;\n";
                 } else if (nm == "__VERIFIER_freeze") {
+                    { size_t k = 0; for (auto &r : frozenRoots) O << "    __frozen_obj" << k++ << " = (void*)&" << r << ";\n"; }
                     O << "    __frozen = 1;\n";
+                } else if (nm == "__VERIFIER_thaw") {
+                    O << "    __frozen = 0;\n";
                 } else if (nm == "__VERIFIER_nondet_uint_unlogged") {
                     O << "    " << r << " = nondet_uint();\n";
                 } else if (nm.rfind("__VERIFIER_nondet_", 0) == 0) {
@@ -963,7 +986,7 @@ int main(int argc, char **argv) {
     OB.flush(); OG.flush(); OP.flush();
     raw_ostream &O = outs();
     O << "#include <stdint.h>\n#include <string.h>\n";
-    O << "struct LPAD { uint8_t *f0; uint32_t f1; };\nstatic int __frozen; unsigned long __nd;\n";
+    O << "struct LPAD { uint8_t *f0; uint32_t f1; };\nstatic int __frozen; static void *__frozen_obj0, *__frozen_obj1, *__frozen_obj2, *__frozen_obj3; unsigned long __nd;\n";
     O << "static uint8_t *__exc_obj; static int __exc_type; static int __exc_pending;\n";
     O << "static uint8_t __exc_buf[4][64]; static int __exc_k;\n";
     O << "static uint8_t *__exc_alloc(uint64_t n) { __CPROVER_assume(n <= 64 && __exc_k < 4); return __exc_buf[__exc_k++]; }\n";
